@@ -159,7 +159,7 @@ impl<T: Tab + 'static> State<T> {
     pub fn exec(&mut self, op: &Value) -> Value {
         let mut ev = op.as_object().expect("HARNESS: op not an object").clone();
         // strip results of a previous run (replay of a recorded trace)
-        for k in ["ty", "out", "post", "r", "walk"] {
+        for k in ["ty", "out", "post", "r", "walk", "le_in"] {
             ev.remove(k);
         }
         let name = arg_str(op, "op").to_string();
@@ -402,12 +402,14 @@ impl<T: Tab + 'static> State<T> {
                     .iter()
                     .map(|w| json!({"kind": w.kind, "n": w.num_vars, "swaps": w.swaps, "flips": w.flips}))
                     .collect();
+                // the library's own ordering between the representative and the input
+                let le_in = r <= *self.get(a);
                 self.slots[d] = Some(r);
                 (
                     "ok",
                     vec![a, d],
                     Some(json!({"perm": perm, "mask": bits_of(mask as u64)})),
-                    vec![("walk".to_string(), Value::Array(walk))],
+                    vec![("walk".to_string(), Value::Array(walk)), ("le_in".to_string(), json!(le_in))],
                 )
             }
             "iter_start" => {
@@ -486,6 +488,17 @@ impl<T: Tab + 'static> State<T> {
                     _ => panic!("HARNESS: bad width"),
                 };
                 ok(vec![], Some(json!({"t": t, "back": bits_of(back)})))
+            }
+            "consts" => {
+                let c = volute::verif::constants();
+                let bl = |v: &Vec<u64>| -> Vec<Vec<usize>> { v.iter().map(|x| bits_of(*x)).collect() };
+                let r = json!({
+                    "var_mask": bl(&c.var_mask),
+                    "num_vars_mask": bl(&c.num_vars_mask),
+                    "count_masks": bl(&c.count_masks),
+                    "swap_input_masks": c.swap_input_masks.iter().map(bl).collect::<Vec<_>>(),
+                });
+                ok(vec![], Some(r))
             }
             "copy" => {
                 let a = arg_usize(op, "a");
